@@ -22,6 +22,21 @@ def main(argv=None):
         from . import runner
 
         return runner.replay_file(argv[1], load_prop)
+    if cmd == "sequence":
+        # internal: ./check sequence <ID> <tier> <master> <json indices> <oracle> <sig> - runs executed one after the other in this
+        # fresh interpreter; reports whether the last one shows the violation class
+        import json
+
+        from . import runner
+        from .props.base import Violation
+
+        prop = load_prop(argv[1].upper())
+        prop.setup_process()
+        out = runner.run_sequence(prop, argv[2], int(argv[3]), json.loads(argv[4]))
+        target = Violation(argv[5], argv[6])
+        hit = out is not None and any(prop.same_class(target, v) for v in out.violations)
+        print("SEQUENCE-REPRODUCED" if hit else "SEQUENCE-NOT-REPRODUCED")
+        return 1 if hit else 0
     if cmd == "selftest":
         from . import selftest
 
